@@ -30,7 +30,7 @@ func init() {
 		ID:    "C07",
 		Level: "exploration",
 		Rule: "G1: well-formed Accept / Accept-Encoding values from the RFC 7231 grammar (1-6 ranges over a 10-type vocabulary incl. */* and type/*, parameters before and after q, parameter names ending in 'q', " +
-			"quoted strings, q-values with 0-80 fractional digits on a 1e-5 grid (same number in several spellings; distinct numbers differ by >= 5e-6), optional SP/HTAB, 1-3 field lines) x offer lists " +
+			"quoted strings, q-values with 0-80 (one long value in 25: 120-1000) fractional digits on a 1e-5 grid (same number in several spellings; distinct numbers differ by >= 5e-6), optional SP/HTAB, 1-3 field lines) x offer lists " +
 			"(permutations, duplicates, offers with parameters, empty) x default present/absent; G2: arbitrary bytes and byte-level mutations of G1. Every case runs the real ParseAccept and Negotiate* functions; " +
 			"a share goes through the API handler (RoutesHandler over an untyped API built from generated Swagger 2.0; GET without body and POST with an admitted JSON body; the reflective operation handler and the call sequence of a generated server: RouteInfo, BindValidRequest, Respond). " +
 			"The offers of an operation are computed from its DECLARATION (produces of the operation, else of the spec, plus the API default); the observed MatchedRoute.Produces must be that set and only lends its order. " +
@@ -40,7 +40,7 @@ func init() {
 			"non-trivial = judged header with >= 2 acceptable ranges that match >= 2 distinct offers; distinct by (function, header lines, offers)",
 		Assumptions: []string{
 			"selection rule as stated: maximum over matching (range, offer) pairs of q, then range specificity (exact > type/* > */*), then earlier offer; parameters of ranges and offers are ignored for matching",
-			"strong oracle only inside the grammar: lower-case type/subtype tokens, 'q' written in lower case, no whitespace around '=', no '*/subtype', no empty list elements, quoted strings without ',' or 'q=', qvalue = 0[.digits] | 1[.zeros]; everything else is judged for totality and result-in-offers only",
+			"strong oracle only inside the grammar: lower-case type/subtype tokens, 'q' written in lower case, no whitespace around '=', no '*/subtype', no empty list elements (TRIAGE-PENDING C07-1: the strict parser skips them and the generators insert them once accept.JudgeEmptyElements is set), qvalue = 0[.digits] | 1[.zeros]; everything else is judged for totality and result-in-offers only",
 			"headers holding two different q-values closer than 1e-6 are not judged by the strong oracle",
 			"a header that is present but holds no range is not judged (the statement speaks of a missing header only)",
 			"header.ParseAccept is judged on what the selection rule needs: one spec per range in order with the range's type, Q == 0 exactly for quality 0, and Q ordered/equal as the exact decimals are",
@@ -476,7 +476,11 @@ func runFunc(m *mon.M, c *Case) {
 		if !w.judged || w.nMode == "" {
 			sl, so, w = lines, offers, v
 		}
-		m.Violate(pfx+"/"+w.nMode, w.nDetail, mk(sl, so))
+		feat := ""
+		if accept.HasOWSBeforeSemicolon(so...) {
+			feat = "/offer-with-ows-before-semicolon"
+		}
+		m.Violate(pfx+"/"+w.nMode+feat, w.nDetail, mk(sl, so))
 	}
 }
 
@@ -770,6 +774,9 @@ func runHandlerOn(m *mon.M, c *Case, b *built, h http.Handler) {
 		m.Class("handler-shape:" + shape[1:])
 	}
 	declared := b.desc.declared(c.Op)
+	if accept.HasOWSBeforeSemicolon(declared...) {
+		shape += "/declared-type-with-ows-before-semicolon"
+	}
 	rec := httptest.NewRecorder()
 	minimal := func() *Case {
 		d := &APIDesc{DefaultProduces: b.desc.DefaultProduces, Global: b.desc.Global, Ops: []OpDesc{b.desc.Ops[c.Op]}, Post: b.desc.Post && body}
@@ -912,6 +919,8 @@ func genAPI(r *rand.Rand) *APIDesc {
 			t := accept.Types[perm[i]]
 			if r.Intn(6) == 0 {
 				t += accept.OfferParams[r.Intn(3)]
+			} else if accept.JudgeOWSBeforeSemicolon && r.Intn(16) == 0 {
+				t += accept.OWSOfferParams[r.Intn(len(accept.OWSOfferParams))]
 			}
 			out = append(out, t)
 		}
@@ -938,7 +947,7 @@ func genLines(r *rand.Rand, types []string) (lines []string, absent bool, flavou
 	}
 	fl := accept.PickFlavour(r)
 	h := accept.GenHeader(r, fl, types)
-	return h.Render(accept.OWS(r)), false, accept.FlavourNames[fl]
+	return accept.WithEmptyElements(r, h.Render(accept.OWS(r))), false, accept.FlavourNames[fl]
 }
 
 func run(m *mon.M) {
@@ -952,7 +961,7 @@ func run(m *mon.M) {
 			var lines []string
 			absent := r.Intn(20) == 0
 			if !absent {
-				lines = accept.GenCodingHeader(r, long).Render(accept.OWS(r))
+				lines = accept.WithEmptyElements(r, accept.GenCodingHeader(r, long).Render(accept.OWS(r)))
 			}
 			c = &Case{Kind: "enc", Absent: absent, Lines: mon.QS(lines), Offers: mon.QS(accept.GenCodingOffers(r))}
 			m.Class("flavour:enc")
